@@ -179,6 +179,18 @@ def eval_group(case):
     except Exception as e:  # noqa
         okp, infop = False, 'binary_payload() raised ' + CC.exc_text(e)
     out.append(_res(O_PAYLOAD, okp, f'{shape}: {infop}', tag))
+    # history: a group DERIVED from an already injected one (send() returns a group carrying the node's hash; _spawn copies every
+    # field) and signed again must be hashed from its own bytes, not from what was remembered
+    try:
+        sent = signed._spawn(opg_hash='oo6JPEAy8VuMRGaFuMmLNFFGdJgiaKfnmT1CpHJfKP3Ye5ZahiP', opg_result={'hash': 'stale'})
+        again = sent._spawn(branch=branch).sign()
+        _, raw2 = B58.decode(again.signature)
+        h2 = again.hash()
+        want2 = B58.operation_hash(bytes.fromhex(again.forge()), raw2)
+        out.append(_res(O_HASH, h2 == want2, f'{shape}: group re-derived from an injected group (opg_hash remembered): hash() = {h2}, expected {want2}',
+                        tag + ' derived-from-injected'))
+    except Exception as e:  # noqa
+        out.append(_res(O_HASH, False, f'{shape}: re-signing a group derived from an injected one raised {CC.exc_text(e)}', tag + ' derived-from-injected'))
     return out
 
 
